@@ -86,8 +86,11 @@ impl<T, E> Observer<T, E> for ObservableFutureObserver<T, E> {
     send_observable_value(self, Ok(value));
   }
 
-  fn error(mut self, err: E) {
-    send_observable_value(&mut self, Err(err));
+  fn error(self, err: E) {
+    // The error is the outcome of the future: hand it over and close the
+    // channel, otherwise the future would stay pending forever.
+    let _ = self.sender.unbounded_send(Ok(Err(err)));
+    self.sender.close_channel();
   }
 
   fn complete(mut self) {
